@@ -321,7 +321,7 @@ impl Driver for C19 {
         "C19"
     }
     fn units(&self, tier: Tier) -> usize {
-        tier.pick(6400, 64000)
+        tier.pick(6400, 320000)
     }
     fn run_unit(&self, ctx: &Ctx, out: &mut UnitOut, _start: usize, only: Option<usize>) {
         let mut rng = unit_rng(ctx, "C19", out.unit);
